@@ -11,7 +11,7 @@ git -C /repo worktree add -q --detach "$WT" HEAD || exit 9
 mkdir -p "$OUT"
 VERIF_REPO=$WT VERIF_OUT=$OUT /verif/check "$ID" --tier "$TIER" > "$OUT/log.txt" 2>&1
 RC=$?
-echo "$N rc=$RC $(grep -c '^VIOLATION' $OUT/log.txt) violation line(s): $(grep '^VIOLATION' $OUT/log.txt | sed 's/.*# //' | cut -c1-110 | head -3 | tr '\n' ';')"
+echo "$N rc=$RC $(grep -c 'VIOLATION' $OUT/log.txt) violation line(s): $(grep 'VIOLATION' $OUT/log.txt | sed 's/.*# //' | cut -c1-110 | head -3 | tr '\n' ';')"
 [ "$RC" = 2 ] && tail -5 "$OUT/log.txt"
 git -C /repo worktree remove --force "$WT"; rm -rf "$OUT"
 exit $RC
